@@ -198,6 +198,8 @@ class Program:
             modname = modname[:-9]
         try:
             tree = ast.parse(source, filename=relpath)
+            from .normalise import normalise_module
+            normalise_module(tree)
             compile(source, relpath, 'exec')      # "does it still build" (compile only, never exec)
         except SyntaxError as e:
             raise AnalysisError(f"{relpath} does not parse: {e}")
